@@ -128,6 +128,52 @@ CLAIMED.update({
   },
 })
 
+CLAIMED.update({
+  "C03": {
+    "text": "Symbolic execution of ISD style resolution against an independent resolver (R-STYLE): precedence animation > specified "
+            "> inherited > initial > default for all 36 properties on every applicable element kind with symbolic animation "
+            "interval and query time; font-size chains and dependent lengths with symbolic values in every unit over 4 cell/pixel "
+            "resolutions; region extent/origin/position(edges)/padding per writing mode with symbolic numbers; textDecoration "
+            "merging, textEmphasis auto, ruby text half size, direction from writing mode. Equalities are SMT queries (nonlinear "
+            "real arithmetic where lengths multiply).",
+    "note": "Style arithmetic compared in real arithmetic (float constants taken as exact rationals of the same Python floats); "
+            "native replays use 1e-9 relative tolerance. Known finding: textEmphasis auto in vertical writing modes.",
+    "technique": "symbolic execution with z3 Real proxies (relaxed floats), differential against R-STYLE",
+    "design": "DESIGN.md §3 C03",
+  },
+  "C10": {
+    "text": "SRT reader: (a) the real to_model runs on a cue whose time fields are symbolic integers (hole tokens through the "
+            "reader's own regex); begin/end proved equal to the printed rational for all h<=999, m,s<=99, ms<=999, in exact-"
+            "rational mode and, if the code rounds through floats, bit-precisely in QF_BVFP; (b) exhaustive selector-driven "
+            "exploration of 1-2 cue files (both tag syntaxes, nesting, multi-line, stray end tags, CRLF, blank runs, cue without "
+            "text) against a reference scoper; (c) writer output with symbolic times re-read and compared.",
+    "note": "(b) has no numeric symbol (solver-scheduled enumeration, stated). Ill-nested tags: only text asserted.",
+    "technique": "symbolic execution with hole-token text + QF_BVFP exactness query + bounded exhaustive exploration",
+    "design": "DESIGN.md §3 C10",
+  },
+  "C11": {
+    "text": "WebVTT reader: exact timestamps (as C10); _get_or_make_region with symbolic percentages/line numbers for every "
+            "combination of vertical/line/position/size/align (inside-root, non-negative extent, writing mode, alignments, "
+            "region sharing as SMT queries); tokenizer compared with the W3C cue text tokenizer on all strings <= 5 over an "
+            "8-character alphabet; cue-text tree for all sequences of <= 4 tokens from a 22-token menu against a reference "
+            "scoper; file-level block sequences; writer output re-read.",
+    "note": "Number parsers are stubbed by symbolic integers in the region harness (real parsers run in the file harness). "
+            "Known findings: position/size geometry leaves the root container; timestamps nested in tags; ruby combinations.",
+    "technique": "symbolic execution with z3 Int proxies + bounded exhaustive exploration + QF_BVFP exactness query",
+    "design": "DESIGN.md §3 C11",
+  },
+  "C18": {
+    "text": "Union of the robustness assertions carried by every harness: on every explored path no reader raises anything but "
+            "the documented input-format errors, and ISD generation, filters and writers do not raise on the documents built. "
+            "Claimed only inside the bounded grammars of those harnesses (SRT/VTT line and token sequences, cue text <= 5 chars, "
+            "model documents of the ISD/writer/LCD harnesses with all rational times).",
+    "note": "Arbitrary byte strings, the XML parser, SCC/STL/IMSC reader inputs not yet covered by a harness are outside. Known "
+            "findings: sub-millisecond cue ValueError, ruby with inactive annotation, WebVTT ruby combinations.",
+    "technique": "symbolic execution / bounded exhaustive exploration, exception outcome asserted on every path",
+    "design": "DESIGN.md §3 C18",
+  },
+})
+
 NOT_YET = {
 }
 
